@@ -7,6 +7,7 @@ package kv
 // Ghost effect counters: mutating object-store requests issued so far.
 //@ ghostvar puts int
 //@ ghostvar deletes int
+//@ ghostvar deleteFailures int   // DELETE requests that reported an error
 // The most recent PUT request: target prefix and object name, and whether it
 // succeeded (ordering obligations of commit are phrased over these).
 //@ ghostvar lastPutPrefix string
@@ -14,6 +15,7 @@ package kv
 //@ ghostvar lastPutOK bool
 
 //@ global ErrReadOnly nonnil
+//@ global ErrMACVerificationFailure nonnil
 
 // Object invariant of an open DB handle.
 //@ spec dbOK(s *DB) bool = s != nil && s.crdt.Mast != nil && s.crdt.Created != nil && s.root != nil && s.merged != nil && s.cfg != nil && s.s3Client != nil &&
@@ -82,7 +84,7 @@ package kv
 //@ func (*DB).moveMergedRoots
 //@   requires dbOK(s) && !s.readonly
 //@   requires published: lastPutOK && lastPutPrefix == s.root.Prefix && lastPutName == newRoot
-//@   modifies puts, deletes, lastPutPrefix, lastPutName, lastPutOK
+//@   modifies puts, deletes, deleteFailures, lastPutPrefix, lastPutName, lastPutOK
 //@   ensures puts >= old(puts) && deletes >= old(deletes)
 //@   loop 1 invariant puts >= old(puts) && deletes >= old(deletes)
 //@   at call:kv.S3Interface.DeleteObjectWithContext assert copy-before-delete: lastPutOK && lastPutPrefix == s.merged.Prefix && lastPutName == key
@@ -94,7 +96,7 @@ package kv
 // a failed commit retires nothing.
 //@ func (*DB).Commit
 //@   requires dbOK(s)
-//@   modifies puts, deletes, lastPutPrefix, lastPutName, lastPutOK, *s.crdt.Mast, s.mergedRoots, s.crdt.MergeSources, s.crdt.Source, s.tombstoned
+//@   modifies puts, deletes, deleteFailures, lastPutPrefix, lastPutName, lastPutOK, *s.crdt.Mast, s.mergedRoots, s.crdt.MergeSources, s.crdt.Source, s.tombstoned
 //@   ensures noop: imp(old(noop(s)), err == nil && result0 == old(s.crdt.Source) && puts == old(puts) && deletes == old(deletes))
 //@   ensures readonly: imp(s.readonly, puts == old(puts) && deletes == old(deletes))
 //@   ensures readonly-error: imp(s.readonly && !old(noop(s)), err == ErrReadOnly && result0 == nil)
@@ -223,7 +225,7 @@ package kv
 
 //@ func Open
 //@   requires S3 != nil && cfg.Storage != nil
-//@   modifies lists, puts, deletes, lastPutPrefix, lastPutName, lastPutOK, cfg.Storage.Prefix
+//@   modifies lists, puts, deletes, deleteFailures, lastPutPrefix, lastPutName, lastPutOK, cfg.Storage.Prefix
 //@   ensures readonly-no-write: imp(opts.ReadOnly, puts == old(puts) && deletes == old(deletes))
 //@   ensures named-no-list: imp(opts.OnlyVersions != nil, lists == old(lists))
 //@   ensures named-all-merged: forall j int :: imp(err == nil && opts.OnlyVersions != nil && 0 <= j && j < len(opts.OnlyVersions), has(result0.mergedRoots, opts.OnlyVersions[j]))
@@ -260,6 +262,10 @@ package kv
 //@   modifies nothing
 //@   ensures imp(err == nil, result0 != nil && fresh(result0)) && imp(err != nil, result0 == nil)
 //@   ensures forall k string :: imp(err == nil && has(result0, k), result0[k] != nil)
+// a version leaves the work list either into the graph or because the lookup
+// SUCCEEDED and found it nowhere; a failed read fails the whole walk (a version
+// silently left out would un-protect its parents and nodes: C09, C14)
+//@   at call:delete* assert left-out-only-if-found-nowhere: (err == nil && root == nil) || (has(g, rootName) && g[rootName] == root && root != nil)
 //@   loop 1 invariant -1 <= rangeindex && rangeindex < len(s.crdt.MergeSources) && todo != nil && fresh(todo) && g != nil && fresh(g)
 //@   loop 2 invariant todo != nil && fresh(todo) && g != nil && fresh(g) && len(persists) == 2 && persists[0] != nil && persists[1] != nil
 //@   loop 2 invariant forall k string :: imp(has(g, k), g[k] != nil)
@@ -380,15 +386,22 @@ package kv
 //@ ghostvar historySnapshot int
 //@ func DeleteHistoricVersions
 //@   requires dbOK(s)
-//@   modifies deletes, historyDeletions, historyHandle, historySnapshot, vacLastChildOld
+//@   modifies deletes, deleteFailures, historyDeletions, historyHandle, historySnapshot, vacLastChildOld
 //@   ghost historyDeletions = historyDeletions + 1
 //@   ghost historyHandle = int(s)
 //@   ghost historySnapshot = int(*s.crdt.Mast)
 //@   ensures recorded: historyDeletions == old(historyDeletions) + 1 && historyHandle == int(s) && historySnapshot == int(*s.crdt.Mast)
 //@   ensures readonly: imp(s.readonly, result == ErrReadOnly && deletes == old(deletes))
 //@   ensures no-put: puts == old(puts)
+// reclaiming is all or error (C10, C14): a version object is deleted only after
+// every node offered with it is gone, and success means no DELETE failed —
+// otherwise a node nobody refers to any more would stay in the bucket for good
+//@   ensures success-means-every-delete-succeeded: imp(result == nil, deleteFailures == old(deleteFailures))
 //@   loop 1 invariant -1 <= rangeindex && rangeindex < len(nodes) && puts == old(puts)
+//@   loop 1 invariant no-node-delete-failed-so-far: deleteFailures == old(deleteFailures)
 //@   loop 2 invariant -1 <= rangeindex && rangeindex < len(roots) && puts == old(puts)
+//@   loop 2 invariant no-delete-failed-so-far: deleteFailures == old(deleteFailures)
+//@   at call:kv.S3Interface.DeleteObjectWithContext#2 assert versions-only-after-all-their-nodes: deleteFailures == old(deleteFailures)
 //@   at call:kv.S3Interface.DeleteObjectWithContext assert node-not-in-current-version: !linkIn(*s.crdt.Mast, l)
 // The flush of the tree (mast MakeRoot, assumed to store every node a version needs) skips a node its node cache
 // remembers as already stored. Deleting node objects is therefore only sound when no such cache can still hold
@@ -460,22 +473,36 @@ package kv
 //@ spec decOK(c string, k string) bool = len(c) >= 24 + 16 && openOK(c[24:], c[:24], k)
 //@ func decrypt
 //@   requires key != nil
-//@   modifies nothing
+//@   modifies macChecked, macCheckedBody, macCheckedTag
+//@   ensures accepted-only-authenticated: imp(err == nil, decOK(bytes(c), bytes(key)) || (macChecked && macCheckedBody == bytes(c)[40:] && macCheckedTag == bytes(c)[24:40]))
 //@   ensures too-short: imp(len(c) < 24, err != nil)
 //@   ensures opens: imp(decOK(bytes(c), bytes(key)), err == nil && bytes(result0) == opened(bytes(c)[24:], bytes(c)[:24], bytes(key)))
 //@   ensures failed: imp(err != nil, result0 == nil)
 
-// the legacy box format (kept for reading old data): in bounds for every length
+// the legacy box format (kept for reading old data): in bounds for every length,
+// and nothing is accepted unless the Poly1305 check of exactly this ciphertext
+// body against exactly this MAC succeeded (ghost record of the last check, set
+// by the assumed contract of poly1305.Verify)
+//@ ghostvar macChecked bool
+//@ ghostvar macCheckedBody string
+//@ ghostvar macCheckedTag string
 //@ func crypto_secretbox_open_easy
 //@   requires k != nil && len(n) == 24
-//@   modifies nothing
+//@   modifies macChecked, macCheckedBody, macCheckedTag
 //@   ensures imp(len(c) < 16, err != nil) && imp(err == nil, fresh(result0) && len(result0) == len(c) - 16) && imp(err != nil, result0 == nil)
+//@   ensures accepted-only-authenticated: imp(err == nil, macChecked && macCheckedBody == bytes(c)[16:] && macCheckedTag == bytes(c)[:16])
 
 //@ func crypto_secretbox_open_detached
 //@   requires k != nil && len(n) == 24 && len(mac) == 16 && len(m) == len(c)
-//@   modifies contents(m)
+//@   modifies contents(m), macChecked, macCheckedBody, macCheckedTag
+//@   ghost macChecked = false
+//@   ensures accepted-only-authenticated: imp(result == nil, macChecked)
+//@   ensures the-whole-body-was-checked: imp(result == nil, macCheckedBody == old(bytes(c)))
+//@   ensures against-this-tag: imp(result == nil, macCheckedTag == old(bytes(mac)))
 //@   loop 1 invariant 0 <= i && i <= mlen0 && mlen0 <= len(m) && mlen0 <= 32 && len(block0) == 64 && fresh(block0)
+//@   loop 1 invariant macChecked && macCheckedBody == old(bytes(c)) && macCheckedTag == old(bytes(mac))
 //@   loop 2 invariant 0 <= i && i <= mlen0 && mlen0 <= len(m) && mlen0 <= 32 && len(block0) == 64 && fresh(block0)
+//@   loop 2 invariant macChecked && macCheckedBody == old(bytes(c)) && macCheckedTag == old(bytes(mac))
 
 //@ func (*jencryptor).Encrypt
 //@   requires j != nil
@@ -483,7 +510,7 @@ package kv
 //@   ensures err == nil && len(result0) == 24 + len(value) + 16
 //@ func (*jencryptor).Decrypt
 //@   requires j != nil
-//@   modifies nothing
+//@   modifies macChecked, macCheckedBody, macCheckedTag
 //@   ensures imp(len(value) < 24, err != nil)
 
 // decrypt inverts encrypt for every plaintext and key, given the seal/open law
@@ -538,7 +565,7 @@ package kv
 //@   modifies nothing
 //@ func (*DB).TraceHistory
 //@   requires dbOK(s) && s.cfg.Storage != nil
-//@   modifies lists, lastPutPrefix, lastPutName, lastPutOK, puts, deletes, traceCut, s.cfg.Storage.Prefix
+//@   modifies lists, lastPutPrefix, lastPutName, lastPutOK, puts, deletes, deleteFailures, traceCut, s.cfg.Storage.Prefix
 //@   ensures never-writes: puts == old(puts) && deletes == old(deletes)
 //@   at call:funcvalue assert reported-entry-is-older-than-its-successor: gv.ModEpochNanos < r.cutoff
 //@   at call:funcvalue ghost traceCut = gv.ModEpochNanos
